@@ -477,6 +477,55 @@ func init() {
 	} {
 		intrinsics[n] = noop
 	}
+	// concurrent mode: mutexes and wait groups have their blocking semantics
+	// (sequential mode: a single goroutine never contends)
+	lock := func(in *Interp, c *frame, fn *ssa.Function, a []value) (value, bool) {
+		if !in.cfg.concurrent {
+			return nil, true
+		}
+		p := a[0].(*value)
+		in.schedPoint()
+		in.block("mutex lock", func() bool { return in.syncState[p] == 0 })
+		in.syncState[p] = 1
+		return nil, true
+	}
+	unlock := func(in *Interp, c *frame, fn *ssa.Function, a []value) (value, bool) {
+		if !in.cfg.concurrent {
+			return nil, true
+		}
+		in.syncState[a[0].(*value)] = 0
+		return nil, true
+	}
+	intrinsics["(*sync.Mutex).Lock"] = lock
+	intrinsics["(*sync.Mutex).Unlock"] = unlock
+	intrinsics["(*sync.RWMutex).Lock"] = lock
+	intrinsics["(*sync.RWMutex).Unlock"] = unlock
+	intrinsics["(*sync.RWMutex).RLock"] = lock // readers exclude each other too: fewer schedules, no extra behaviours for race-free code
+	intrinsics["(*sync.RWMutex).RUnlock"] = unlock
+	intrinsics["(*sync.WaitGroup).Add"] = func(in *Interp, c *frame, fn *ssa.Function, a []value) (value, bool) {
+		p := a[0].(*value)
+		d := sext(a[1].(uint64), 64)
+		in.syncState[p] += d
+		if in.syncState[p] < 0 {
+			panic(rtPanic("sync: negative WaitGroup counter"))
+		}
+		return nil, true
+	}
+	intrinsics["(*sync.WaitGroup).Done"] = func(in *Interp, c *frame, fn *ssa.Function, a []value) (value, bool) {
+		p := a[0].(*value)
+		in.syncState[p]--
+		if in.syncState[p] < 0 {
+			panic(rtPanic("sync: negative WaitGroup counter"))
+		}
+		in.schedPoint()
+		return nil, true
+	}
+	intrinsics["(*sync.WaitGroup).Wait"] = func(in *Interp, c *frame, fn *ssa.Function, a []value) (value, bool) {
+		p := a[0].(*value)
+		in.schedPoint()
+		in.block("WaitGroup.Wait", func() bool { return in.syncState[p] == 0 })
+		return nil, true
+	}
 	intrinsics["(*sync.Mutex).TryLock"] = func(in *Interp, c *frame, fn *ssa.Function, a []value) (value, bool) { return true, true }
 	intrinsics["(*sync.Pool).Get"] = func(in *Interp, c *frame, fn *ssa.Function, a []value) (value, bool) {
 		// call New if set, else nil
